@@ -461,17 +461,22 @@ class Evaluator:
         if not (isinstance(t, ast.Call) and isinstance(t.func, ast.Name) and t.func.id == "isinstance" and len(t.args) == 2 and isinstance(t.args[0], ast.Name)):
             return None
         name = t.args[0].id
-        if len(st.body) != 1 or st.orelse or name not in state.env:
+        if st.orelse or name not in state.env:
             return None
-        b = st.body[0]
-        if not (isinstance(b, ast.Assign) and len(b.targets) == 1 and isinstance(b.targets[0], ast.Name) and b.targets[0].id == name
-                and isinstance(b.value, ast.Attribute) and isinstance(b.value.value, ast.Name) and b.value.value.id == name):
+        steps = [x for x in st.body if isinstance(x, ast.Assign) and len(x.targets) == 1 and isinstance(x.targets[0], ast.Name) and x.targets[0].id == name
+                 and isinstance(x.value, ast.Attribute) and isinstance(x.value.value, ast.Name) and x.value.value.id == name]
+        if len(steps) != 1:
             return None
+        b = steps[0]
+        others = [x for x in st.body if x is not b]
         spec = self.eval1(t.args[1], state, func)
         names = self._class_names(spec)
         if names is None:
             return None
         s2 = state.fork()
+        if others:
+            # whatever else the loop body accumulates on the way down is not tracked (explicit unknowns), the peeled variable is
+            self._havoc_assigned(others, s2, "while-peel", st.lineno)
         peeled = ("peel", s2.env[name], tuple(sorted(names)), b.value.attr)
         s2.env[name] = peeled
         s2.conds = add_cond(s2.conds, ("not", ("isinstance", peeled, tuple(sorted(names)))))
